@@ -335,7 +335,7 @@ pub fn base_cfg(exact: bool, t: Tier) -> GenCfg {
 pub fn campaigns(ctx: &Ctx) -> Stats {
     let mut st = Stats::default();
     let t = ctx.tier;
-    let (len, total) = t.pick((10usize, 30000u64), (30, 400000));
+    let (len, total) = t.pick((10usize, 120000u64), (30, 400000));
     for (name, exact) in [("exact-programs", true), ("mixed-programs", false)] {
         let cfg = base_cfg(exact, t);
         let strat = move || (recipe_strategy(len), any::<[u8; 8]>(), any::<u64>()).prop_map(|(prog, p, vseed)| R17 { prog, p, vseed }).boxed();
